@@ -200,6 +200,11 @@ SOLVE_CASES = [
     dict(L=[1.0], step="gd", second="new_point"),
     dict(L=[1.0, 2.0], step="block", second="new_combo"),
     dict(L=[2.0, 1.0], step="gd", second="same", hand=True),
+    # the partition is built with the documented public constructor instead of PEP.declare_block_partition
+    dict(L=[1.0, 2.0], step="block", second="new_point", direct=True),
+    dict(L=[1.0, 2.0, 4.0], step="gd", second="same", direct=True),
+    # user-given names that collide (names are labels only)
+    dict(L=[1.0, 2.0], step="block", second="new_point", names="same"),
 ]
 
 
@@ -210,7 +215,11 @@ def judge_solve(case):
     probs = []
     p = PEP()
     d = len(case["L"])
-    part = p.declare_block_partition(d=d)
+    if case.get("direct"):
+        from PEPit.block_partition import BlockPartition
+        part = BlockPartition(d)
+    else:
+        part = p.declare_block_partition(d=d)
     calls_log = []
     orig = part.get_block
 
@@ -227,6 +236,9 @@ def judge_solve(case):
         x1 = x0 - (1.0 / sum(case["L"])) * g0          # the user never decomposes anything
     else:
         x1 = x0 - (1.0 / case["L"][0]) * part.get_block(g0, 0)
+    if case.get("names") == "same":
+        for pt_ in (xs, x0, x1):
+            pt_.set_name("x")
     p.set_initial_condition((x0 - xs) ** 2 <= 1)
     p.set_performance_metric(f(x1) - f(xs))
     hand = None
@@ -357,7 +369,7 @@ def meta(tier):
              "generated once / twice / after a hand-added constraint; sum, identity-of-objects, one-block identity, exact "
              "set of relations, and evaluation of every generated relation on the real coordinate projections of integer "
              "vectors for every coordinate partition of R^n, n <= 3; plus %d block-smooth solve scenarios (user never "
-             "decomposes, decomposition of a new point between two solves, hand-added constraint) observed through "
+             "decomposes, decomposition of a new point between two solves, hand-added constraint, partition built with the public constructor, colliding point names) observed through "
              "recording wrappers. non-trivial = d > 1." % (_depth(tier), _depth(tier) - 1, len(SOLVE_CASES)),
         bounds=dict(depth=_depth(tier), d=[1, 2, 3], n_max=3),
         exhaustive=True,
